@@ -1,11 +1,21 @@
-(* C11 - Transition history mirrors what happened; replay keeps replicas in sync. Theorems only. Vocabulary: Ready cfg s a = the machine is at a point where requests are processed (or between API calls) with state a < n active, registry.requested = INVALID, the outstanding request (if any) names a state, the plan is well formed; Inv = the same without naming a. loop_rounds = the guard rounds the substitution loop executes (ghost-instrumented copy of the loop, proved equal to it: transitions_loop_g_erase), each with its pending transition, whether it was cancelled, and whether it was dropped by applyRequest's same-destination rule; last_survivor = the pending transition of the last round neither cancelled nor dropped; rounds_shape / guard_round describe the events of the rounds (exit guard of the active state, then - unless it cancelled - entry guard of the destination; every guard view shows that round's pending transition and the survivor so far); change a a' l = the lifecycle events exit(a);enter(a') | reenter(a) | ...; quiet a l = no enter/exit/reenter in l and every view shows a active. *)
+(* C11 - Transition history mirrors what happened; replay keeps replicas in sync. Theorems only. Vocabulary: Ready cfg
+   s a = the machine is at a point where requests are processed (or between API calls) with state a < n active,
+   registry.requested = INVALID, the outstanding request (if any) names a state, the plan is well formed; Inv = the
+   same without naming a. loop_rounds = the guard rounds the substitution loop executes (ghost-instrumented copy of the
+   loop, proved equal to it: transitions_loop_g_erase), each with its pending transition, whether it was cancelled, and
+   whether it was dropped by applyRequest's same-destination rule; last_survivor = the pending transition of the last
+   round neither cancelled nor dropped; rounds_shape / guard_round describe the events of the rounds (exit guard of the
+   active state, then - unless it cancelled - entry guard of the destination; every guard view shows that round's
+   pending transition and the survivor so far); change a a' l = the lifecycle events exit(a);enter(a') | reenter(a) |
+   ...; quiet a l = no enter/exit/reenter in l and every view shows a active. *)
 From Coq Require Import List Arith Bool NArith.
 From FFSM2 Require Import Model.TaskList Model.BitArray Model.BitStream Model.Plan Model.Ancestors Model.Machine
   Proofs.BitArrayProofs Proofs.MachineFrame Proofs.MachinePlan Proofs.MachineLife Proofs.GuardProofs Proofs.CycleProofs Proofs.PlanStep
-  Proofs.SerialProofs Proofs.LogProofs Proofs.MachineTop.
+  Proofs.SerialProofs Proofs.LogProofs Proofs.MachineTop Model.Multi Generated.InitFacts Proofs.ConstructProofs Proofs.LifeMonitor Proofs.ActivationRounds Proofs.IndexSafety Proofs.FeatureProofs.
 Import ListNotations.
 
-(* previousTransition() after a processing step is the surviving transition (origin, destination and payload), empty if none survived *)
+(* previousTransition() after a processing step is the surviving transition (origin, destination and payload), empty if
+   none survived *)
 Theorem C11_previous_is_the_survivor :
   forall (P : Type) (cfg : config) (orc : oracle P),
          wf_cfg cfg ->
@@ -37,7 +47,8 @@ Theorem C11_previous_is_the_survivor :
 Proof. exact (process_request_top). Qed.
 Print Assumptions C11_previous_is_the_survivor.
 
-(* when previousTransition() is set its destination is the now-active state; when it is empty the active state did not change *)
+(* when previousTransition() is set its destination is the now-active state; when it is empty the active state did not
+   change *)
 Theorem C11_previous_names_the_active_state :
   forall (P : Type) (cfg : config) (orc : oracle P),
          wf_cfg cfg ->
@@ -52,7 +63,9 @@ Theorem C11_previous_names_the_active_state :
 Proof. exact (previous_tracks_active). Qed.
 Print Assumptions C11_previous_names_the_active_state.
 
-(* feeding the authority's previousTransition().destination to replayTransition() on a replica in the same state reproduces the authority's active state, running enter/exit/reenter only, for arbitrary (hostile) replica callbacks orc' *)
+(* feeding the authority's previousTransition().destination to replayTransition() on a replica in the same state
+   reproduces the authority's active state, running enter/exit/reenter only, for arbitrary (hostile) replica callbacks
+   orc' *)
 Theorem C11_replica_in_sync :
   forall (P : Type) (cfg : config) (orc : oracle P),
          wf_cfg cfg ->
